@@ -389,7 +389,11 @@ def report(ctx: vlib.Ctx, gen: Optional[Dict[str, Any]] = None) -> Dict[str, Any
     if any(v.get("found_input") for v in ctx.violations) or ctx.known_hits:
         ctx.notes.append("generated tie broken as well (a failing input is reported above): " + what)
         return gen
-    tgt, thm, efile = gen["failed"][0] if gen["failed"] else ("?", "?", "?")
+    if not gen["failed"]:       # nothing could be compiled at all (the development itself does not build)
+        ctx.violation("generated tie could not be checked: " + what,
+                      {"kind": "generated-tie", "theorem": None, "problems": gen["problems"]}, found_input=False)
+        return gen
+    tgt, thm, efile = gen["failed"][0]
     ctx.violation(f"generated tie broken: theorem {thm} of {efile} no longer checks against the code translated from "
                   f"{TARGETS.get(tgt, {}).get('source', '?')} -- {what}",
                   {"kind": "generated-tie", "theorem": thm, "equivalence_file": efile, "target": tgt,
